@@ -313,6 +313,13 @@ func runCheck(id, tier string, seed int64) int {
 		fmt.Fprintf(os.Stderr, "govc: no check for property %s\n", id)
 		return 2
 	}
+	// solver scripts of this check: one directory per property, emptied at the start of every run
+	if d := os.Getenv("GOVC_OUT"); d != "" {
+		smtOutDir = filepath.Join(d, "smt", id)
+	} else {
+		smtOutDir = filepath.Join("/verif/out/smt", id)
+	}
+	os.RemoveAll(smtOutDir)
 	w, err := LoadWorld()
 	defer w.Close()
 	if err != nil {
